@@ -27,6 +27,10 @@ Definition agree_render (lay : layout) (c : content str) (lines : list str) : bo
 Definition agree_dir (single_ok : bool) (et : list str) (ts : bool) (n e : nat)
            (types : list (str * list Z)) (files : table str) (x : option (dir_result str)) : bool :=
   res_agree dir_eqb (read_dir str tparse single_ok et ts n e types files) x.
+(* FEMData.read_files('fistr', files in the given order, time_series=True) *)
+Definition agree_files (single_ok : bool) (et : list str) (n e : nat)
+           (types : list (str * list Z)) (files : table str) (x : option (dir_result str)) : bool :=
+  res_agree dir_eqb (read_files_series str tparse single_ok et n e types files) x.
 (* the theorem's statement evaluated on one case *)
 Definition model_roundtrip_ok (lay : layout) (n e : nat) (types : list (str * list Z))
            (c : content str) : bool :=
